@@ -572,13 +572,15 @@ class LRUCache(CacheBase):
             if node is None:
                 self.statistics.misses += 1
                 return None
-            # Unlink because we're either going to move the node to the front
-            # of the LRU list or we're going to free it.
-            node.unlink()
+            # Look at the value before touching the list, so that an exception
+            # raised here cannot leave the node in the dict but out of the list.
             if node.value.expiration <= time.time():
+                node.unlink()
                 del self.data[node.key]
                 self.statistics.misses += 1
                 return None
+            # Move the node to the front of the LRU list.
+            node.unlink()
             node.link_after(self.sentinel)
             self.statistics.hits += 1
             node.hits += 1
